@@ -107,6 +107,24 @@ def _job(job):
     return out
 
 
+def _bridge_job(job):
+    """'<n>O<X>' / '<n>-O-<X>-': the position's oxygen is named explicitly, so it carries the group whatever preserve_elem says"""
+    name, parent, pos, token = job
+    toks = _recipe_tokens(name)
+    kind, smi = real.smiles_of(name)
+    pk, ps = real.smiles_of(parent)
+    out = {"kind": kind, "smiles": smi if kind == "ok" else None, "tokens": toks}
+    if pk == "ok" and ps and kind == "ok" and smi:
+        save = SPEC[token]
+        SPEC[token] = (save[0], "on")
+        try:
+            out["expected"] = expected(ps, pos, token)
+        finally:
+            SPEC[token] = save
+        out["canon"] = chem.canon(smi)
+    return out
+
+
 def _canon_job(name):
     kind, smi = real.smiles_of(name)
     return (kind, chem.canon(smi) if kind == "ok" and smi else smi)
@@ -144,6 +162,8 @@ def run(rep, tier, driver):
     vocab = gen.Vocab()
     cv = chemgen.ChemVocab(vocab, tier)
     tokens = [k for k in vocab.fg_tokens if not k[0].isdigit()]      # '<n><token>' would re-lex as a longer number
+    # keys of functional_groups that the grammar reads through the bridge-letter token types rather than the FG rule
+    tokens += [k for k in ("P", "N") if k in vocab.fg and k not in tokens]
     sugars = [s for s in vocab.sugars_p if s in cv.info] + [s + "f" for s in vocab.sugars_f if s + "f" in cv.info]
     sugars += [n for n in ["GlcN", "GalN", "ManN", "Neu", "Kdo"] if n in cv.info and n not in sugars]
     jobs = []
@@ -207,6 +227,31 @@ def run(rep, tier, driver):
                 rep.extra["skeleton_samples"].append([name, o["canon"]])
             rep.violation("input", {"iupac": name, "parent": sg, "position": pos, "token": tok}, {"result": o["canon"]},
                           "every other atom and stereocentre of the sugar unchanged", key="skeleton:" + name)
+    # bridge token shapes: the oxygen written explicitly
+    bjobs = []
+    on_toks = [t for t in tokens if t in SPEC and SPEC[t][1] == "on"]
+    for sg, poss in (("Glc", (3, 6)), ("Gal", (4,)), ("Man", (2,)), ("Neu5Ac", (9,)), ("Kdo", (4,))):
+        if sg not in cv.info:
+            continue
+        for pos in poss:
+            for tok in (on_toks if (tier != "quick" or (sg, pos) == ("Glc", 3)) else rng.sample(on_toks, min(len(on_toks), 12))):
+                bjobs.append(("%s%dO%s" % (sg, pos, tok), sg, pos, tok))
+                bjobs.append(("%s%d-O-%s-" % (sg, pos, tok), sg, pos, tok))
+    bouts = pmap(_bridge_job, bjobs, chunk=8)
+    for (name, sg, pos, tok), o in zip(bjobs, bouts):
+        want_toks = sorted([sg if sg != "Neu5Ac" else "Neu", name[len(sg):]] + (["5Ac"] if sg == "Neu5Ac" else []))
+        if o.get("tokens") != want_toks:
+            rep.count("bridge-shape-relexes-differently (dropped)")
+            continue
+        rep.count("bridge-shape")
+        ok = o["kind"] == "ok" and bool(o.get("smiles"))
+        rep.case(canon=name, nontrivial=ok)
+        if not ok or o.get("expected") is None:
+            rep.count("bridge-shape-not-converted-or-no-spec")
+            continue
+        if o["canon"] != o["expected"]:
+            rep.violation("input", {"iupac": name, "parent": sg, "position": pos, "token": tok, "shape": "explicit O bridge"}, {"result": o["canon"]},
+                          {"result": o["expected"], "note": "the position's O carries the group"}, key="bridge:%s:%s" % (tok, name))
     # reactor Model in the loop: token dispatch / extract_bridge / set_fg of the first round, side_chains compared cell by cell
     import reactx
     extra_names = ["Glc2NAc", "GlcNAc", "Glc3OMe", "Gal6-O-Me-", "Glc2-N-Ac-", "Neu5Ac", "Neu5Gc", "NeuAc", "GlcA", "Glc-uronic", "GlcN", "FruN", "Glc3d", "Glc3e", "Glc2NS", "Glc6PCho",
